@@ -121,6 +121,17 @@ class ListT(TupleT):
         return list(super().make(ctx, name))
 
 
+class ObjT(TypeGen):
+    """Instance of a real class with the given symbolic fields."""
+
+    def __init__(self, cls, fields):
+        self.cls, self.fields = cls, fields
+
+    def make(self, ctx, name):
+        cls = resolve(self.cls) if isinstance(self.cls, str) else self.cls
+        return Obj(cls, {k: t.make(ctx, '%s.%s' % (name, k)) for k, t in self.fields.items()})
+
+
 class ColT(TypeGen):
     """Column letters: 1..3 characters, each a symbolic code point in [A-Za-z] (or A-Z only)."""
 
@@ -206,10 +217,13 @@ class Contract:
             return fn
         return deco
 
-    def known_region(self, fid):
-        """Region (predicate over the inputs) of a finding listed in known_findings.json."""
+    def known_region(self, fid, clause):
+        """Region (predicate over the inputs) in which `clause` is known to fail — a finding
+        listed in known_findings.json.  Callers assume the clause only outside the region."""
         def deco(fn):
             self.regions[fid] = fn
+            self.region_clause = getattr(self, 'region_clause', {})
+            self.region_clause[fid] = clause
             return fn
         return deco
 
@@ -263,10 +277,21 @@ class Contract:
                 pass
             else:
                 raise Unsupported('frame havoc of %r' % (cur,))
-        result = self.returns.make(ctx, '%s#%d.ret' % (cname, n))
+        if isinstance(self.returns, TypeGen):
+            result = self.returns.make(ctx, '%s#%d.ret' % (cname, n))
+        else:
+            result = self.returns(ctx, '%s#%d.ret' % (cname, n), loc)
         for cl in self.clauses:
             post = self._eval_clause(interp, cl.fn, loc, result, old, mode='assume')
+            for fid, cname_ in getattr(self, 'region_clause', {}).items():
+                if cname_ == cl.name:   # known to fail inside the region: assume it only outside
+                    reg = self._eval_clause(interp, self.regions[fid], old, None, old, mode='assume')
+                    post = tm.mk_or(reg, post)
             ctx.assume(post)
+        # vacuity guard: an assumed contract must not contradict the path
+        key = ('feasible-after', cname)
+        if not ctx.feasible([]):
+            raise SpecError('assumed contract %s contradicts the path at its call site (vacuous)' % cname)
         ctx.ghost.setdefault('used_contracts', set()).add(cname)
         return result
 
@@ -291,6 +316,26 @@ class Contract:
                                   on_raise='false' if mode == 'goal' else 'error')
         finally:
             ctx.spec_mode, ctx.neg_depth = saved
+
+
+def deep_equal(interp, a, b):
+    """Structural equality (objects by class and fields) as bool / SBool."""
+    from .models import equal, band
+    if isinstance(a, Obj) and isinstance(b, Obj):
+        if a.cls is not b.cls or set(a.fields) != set(b.fields):
+            return False
+        return band([deep_equal(interp, a.fields[k], b.fields[k]) for k in a.fields])
+    if isinstance(a, (list, tuple)) and type(a) is type(b):
+        if len(a) != len(b):
+            return False
+        return band([deep_equal(interp, x, y) for x, y in zip(a, b)])
+    if isinstance(a, dict) and isinstance(b, dict):
+        if set(a) != set(b):
+            return False
+        return band([deep_equal(interp, a[k], b[k]) for k in a])
+    if a is b:
+        return True
+    return equal(interp, a, b)
 
 
 def snapshot(v):
@@ -392,9 +437,8 @@ def verify_contract(con, registry, label=None):
             for p in con.params:
                 if p in con.frame:
                     continue
-                from .models import equal
                 try:
-                    e = equal(interp, args[p], old[p])
+                    e = deep_equal(interp, args[p], old[p])
                 except Unsupported:
                     continue
                 t = tm.const(e) if isinstance(e, bool) else e.t
@@ -493,8 +537,24 @@ def concretize(v, env, funs=REAL_FUNS):
         n = tm.evaluate(v.len, env, funs)
         return [concretize(v.wrap(tm.mk_select(v.arr, tm.const(i))), env, funs) for i in range(n)]
     if isinstance(v, Obj):
-        return ('obj', v.cls.__name__, {k: concretize(x, env, funs) for k, x in v.fields.items() if not callable(x)})
+        return make_instance(v.cls, {k: concretize(x, env, funs) for k, x in v.fields.items()})
     return v
+
+
+def make_instance(cls, fields):
+    if issubclass(cls, BaseException):
+        o = cls.__new__(cls)
+        o.args = tuple(fields.get('args', ()))
+    else:
+        o = cls.__new__(cls)
+    for k, x in fields.items():
+        if k == 'args' and issubclass(cls, BaseException):
+            continue
+        try:
+            object.__setattr__(o, k, x)
+        except Exception:
+            pass
+    return o
 
 
 def model_env(hyps, extra_vars=(), solvers=('z3', 'cvc5'), timeout=10.0, extra_asserts=()):
@@ -541,6 +601,10 @@ def py_equal(a, b):
         return type(a) is type(b) and len(a) == len(b) and all(py_equal(x, y) for x, y in zip(a, b))
     if isinstance(a, slice) and isinstance(b, slice):
         return (a.start, a.stop, a.step) == (b.start, b.stop, b.step)
+    if type(a) is type(b) and hasattr(type(a), '__slots__') and not isinstance(a, (str, int, float, tuple)):
+        return all(py_equal(getattr(a, k, None), getattr(b, k, None)) for k in type(a).__slots__)
+    if isinstance(a, BaseException) and type(a) is type(b):
+        return True
     try:
         return type(a) is type(b) and bool(a == b) or (a is b)
     except Exception:
@@ -600,8 +664,6 @@ def concolic_check(con, rec):
         cargs = concretize(rec.args_in, env)
     except tm.EvalError as ex:
         return 'skipped', 'args not evaluable: %s' % ex
-    if any(isinstance(x, tuple) and x and x[0] == 'obj' for x in cargs.values()):
-        return 'skipped', 'object arguments'
     outcome, after = run_native(con.fn, cargs)
     kind = rec.outcome[0]
     if kind == 'raise':
